@@ -580,6 +580,27 @@ func c19Compare(an string, a *nodeDeviceCache, bn string, b *nodeDeviceCache) (s
 	return "", "", ""
 }
 
+// c19CopyAlloc is a field-by-field copy (no codec involved).
+func c19CopyAlloc(in apiext.DeviceAllocations) apiext.DeviceAllocations {
+	if in == nil {
+		return nil
+	}
+	out := apiext.DeviceAllocations{}
+	for dt, l := range in {
+		cp := make([]*apiext.DeviceAllocation, 0, len(l))
+		for _, a := range l {
+			n := &apiext.DeviceAllocation{Minor: a.Minor, ID: a.ID, Resources: a.Resources.DeepCopy()}
+			if a.Extension != nil {
+				n.Extension = &apiext.DeviceAllocationExtension{GPUSharedResourceTemplate: a.Extension.GPUSharedResourceTemplate,
+					VirtualFunctions: append([]apiext.VirtualFunction(nil), a.Extension.VirtualFunctions...)}
+			}
+			cp = append(cp, n)
+		}
+		out[dt] = cp
+	}
+	return out
+}
+
 func c19Persisted(m map[types.UID]c19Obj) string {
 	var us []string
 	for u := range m {
@@ -669,14 +690,7 @@ func TestVerifC19DeviceReplay(t *testing.T) {
 			if holders > maxLive {
 				maxLive = holders
 			}
-			sig, msg, about := c19Compare("live", dc, "fresh", fresh)
-			if sig == "" {
-				sig, msg, about = c19Compare("fresh", fresh, "live", dc)
-			}
-			if sig == "" {
-				return
-			}
-			// attribute: does the replayed ledger at least agree with what Reserve handed out?
+			// the harness' own statement of what is taken: what Reserve handed to every object that is still active
 			ref := newNodeDeviceCache()
 			ref.onDeviceAdd(device.DeepCopy())
 			for _, u := range running() {
@@ -685,17 +699,35 @@ func TestVerifC19DeviceReplay(t *testing.T) {
 				if o.Resv != nil {
 					p = reservationutil.NewReservePod(o.Resv)
 				}
-				ref.getNodeDevice(c19Node, true).updateCacheUsed(model[u], p, true)
+				ref.getNodeDevice(c19Node, true).updateCacheUsed(c19CopyAlloc(model[u]), p, true)
 			}
-			fsig, _, _ := c19Compare("reserve-time", ref, "fresh", fresh)
-			if fsig == "" {
-				fsig, _, _ = c19Compare("fresh", fresh, "reserve-time", ref)
+			sig, msg, about := c19Compare("live", dc, "fresh", fresh)
+			if sig == "" {
+				sig, msg, about = c19Compare("fresh", fresh, "live", dc)
+			}
+			vsModel := false
+			if sig == "" {
+				// also sees a loss that the live scheduler shares because it re-read its own annotation
+				vsModel = true
+				sig, msg, about = c19Compare("reserve-time", ref, "fresh", fresh)
+				if sig == "" {
+					sig, msg, about = c19Compare("fresh", fresh, "reserve-time", ref)
+				}
+			}
+			if sig == "" {
+				return
 			}
 			full := "device-replay:" + sig
-			if how, gone := deletedHow[about]; gone && sig == "holder-lost" {
+			if how, gone := deletedHow[about]; gone && sig == "holder-lost" && !vsModel {
 				full = "device-replay:live-keeps-deleted-object:" + how
-			} else if fsig == "" {
-				full += ":live-differs-from-reserve-time"
+			} else if !vsModel {
+				if fsig, _, _ := c19Compare("reserve-time", ref, "fresh", fresh); fsig == "" {
+					if fsig, _, _ = c19Compare("fresh", fresh, "reserve-time", ref); fsig == "" {
+						full += ":live-differs-from-reserve-time"
+					}
+				}
+			} else {
+				msg = "(live and fresh agree) " + msg
 			}
 			if c.Violation(t, full, "%s\ninventory: %s\nhistory: %s\nreplay events: %v\npersisted: %s", msg, c19DeviceStr(device), strings.Join(hist, "\n  "), evs, c19Persisted(persisted)) {
 				dead = true
@@ -772,12 +804,7 @@ func TestVerifC19DeviceReplay(t *testing.T) {
 			if asResv {
 				sawResv = true
 			}
-			// deep copy through JSON: the plugin keeps mutating nothing afterwards, but the model must not alias
-			var alloc apiext.DeviceAllocations
-			if state.allocationResult != nil {
-				b, _ := json.Marshal(state.allocationResult)
-				_ = json.Unmarshal(b, &alloc)
-			}
+			alloc := c19CopyAlloc(state.allocationResult) // the model must not alias what the plugin holds
 			model[pod.UID] = alloc
 			if len(alloc) >= 2 {
 				sawMultiType = true
